@@ -515,6 +515,7 @@ def _harness(ctx, cfg):
             ctx.oblige("C11.no_refresh", len(p.emitted) == 0, "C11")
         if want("C20"):
             ctx.oblige("C20.refused_emits_none", len(p.emitted) == 0, "C20")
+            ctx.oblige("C20.signal_delivers_after_refusal", S.signal_delivers(p), "C20")
         return
     sub = ",".join(type(a).__name__ for a in getattr(act, "actions", []))
     ctx.tag("accepted")
@@ -673,6 +674,7 @@ def _harness(ctx, cfg):
             ctx.oblige("C06.lookups_after_redo", And(S.c06_lookups(S3, k, True), S3.wf, S.c06_fresh(S3, True)), "C06")
         if want("C20"):
             ctx.oblige("C20.undo_one_refresh", len(e2) == 1 and len(e3) == 1, "C20")
+            ctx.oblige("C20.signal_delivers_after_edit", S.signal_delivers(p), "C20")
         if cfg.get("twice", True) and want("C01"):
             # the same history entry inverted a second time (e u r u r)
             try:
